@@ -1,4 +1,4 @@
-PROP = {"engines": [("list", "bounds", 2000), ("slist", "bounds", 1500), ("array", "bounds", 2500), ("deque", "bounds", 2500), ("pqueue", "default", 800), ("hashtable", "default", 1500),
+PROP = {"engines": [("list", "bounds", 2000), ("slist", "bounds", 1500), ("array", "bounds", 2500), ("sized", "bounds", 1500), ("array", "stack", 600), ("array", "iter", 800), ("sized", "iter", 500), ("list", "iter", 1000), ("slist", "iter", 800), ("deque", "iter", 800), ("array", "derived", 500), ("sized", "derived", 300), ("deque", "bounds", 2500), ("pqueue", "default", 800), ("hashtable", "default", 1500),
                     ("tst", "default", 800), ("treetable", "default", 800), ("rbuf", "default", 500)],
         "level_text": "Coq theorems per engine: a step with a non-OK status returns the identical model state, and the range guards generated from the C source on this run "
                       "are equivalent to 'index outside the documented range' for all index/size values (array, deque, pqueue; hash table / TST / ring buffer: missing key, empty). "
